@@ -22,6 +22,7 @@ func run(e *harness.Env) {
 		"(A2) every 2x2/2x1 image over a 5-value alphabet x every tag pair, (B) every byte string of length<=3 over {00,01,7F,80,FF} x single filter x spelling, " +
 		"(C) every filter chain of length<=3 over {Fl,Fl+PNG,Fl+TIFF,AHx,A85} x name form x DecodeParms form x data incl. 4095/4096/4097/65536-byte patterns, " +
 		"(D) undecodable inputs (bad characters, base-85 overflow, truncated/bit-flipped zlib, PNG tag>4, ragged length): error or original. " +
+		"Every case: Decode on one stream object, the encoded bytes must be unaltered afterwards, and a second Decode of the same object must give the same bytes. " +
 		"distinct = distinct case descriptors; non-trivial = anything but the unfiltered identity"
 	e.Assumptions = []string{"compress/zlib is a conforming Flate encoder", "harness PNG/TIFF/hex/base-85 encoders follow ISO 32000-1 7.4 and the PNG specification"}
 	predictors(e)
@@ -224,20 +225,50 @@ func check(e *harness.Env, desc string, nontrivial bool, s *core.Stream, want []
 	var got []byte
 	var err error
 	e.Begin(desc)
+	enc := append([]byte(nil), s.Data...)
 	sig, det := harness.Guard(func() { got, err = s.Decode() })
 	if sig != "" {
-		e.Fail(desc, sig, det, map[string][]byte{"stream.bin": s.Data})
+		e.Fail(desc, sig, det, map[string][]byte{"stream.bin": enc})
 		return
 	}
 	if err != nil {
-		e.Fail(desc, "error-on-valid-encoding", fmt.Sprintf("Decode: %v\ndict: %s", err, s.Dict.String()), map[string][]byte{"stream.bin": s.Data})
+		e.Fail(desc, "error-on-valid-encoding", fmt.Sprintf("Decode: %v\ndict: %s", err, s.Dict.String()), map[string][]byte{"stream.bin": enc})
 		return
 	}
 	if !bytes.Equal(got, want) {
-		e.Fail(desc, "wrong-bytes", fmt.Sprintf("dict: %s\nwant %d bytes % x\ngot  %d bytes % x", s.Dict.String(), len(want), head(want), len(got), head(got)), map[string][]byte{"stream.bin": s.Data})
+		e.Fail(desc, "wrong-bytes", fmt.Sprintf("dict: %s\nwant %d bytes % x\ngot  %d bytes % x", s.Dict.String(), len(want), head(want), len(got), head(got)), map[string][]byte{"stream.bin": enc})
+		return
+	}
+	if s2, d2 := again(s, enc, got); s2 != "" {
+		e.Fail(desc, s2, d2, map[string][]byte{"stream.bin": enc})
 		return
 	}
 	e.Pass(desc, nontrivial, outcome)
+}
+
+// again decides the part of "decoding inverts the encoding" that concerns the stream object itself:
+// decoding does not alter the encoded bytes it was given, and decoding the same stream object once more
+// gives the same bytes (a reader decodes a cached stream object as often as it is asked for).
+func again(s *core.Stream, enc, first []byte) (sig, detail string) {
+	if !bytes.Equal(s.Data, enc) {
+		return "decode-alters-encoded-data", fmt.Sprintf("dict: %s\nencoded before % x\nencoded after  % x", s.Dict.String(), head(enc), head(s.Data))
+	}
+	keep := append([]byte(nil), first...)
+	var got []byte
+	var err error
+	if psig, pdet := harness.Guard(func() { got, err = s.Decode() }); psig != "" {
+		return psig, pdet
+	}
+	if err != nil {
+		return "second-decode-fails", fmt.Sprintf("dict: %s\nsecond Decode of the same stream: %v", s.Dict.String(), err)
+	}
+	if !bytes.Equal(got, keep) {
+		return "second-decode-differs", fmt.Sprintf("dict: %s\nfirst  % x\nsecond % x", s.Dict.String(), head(keep), head(got))
+	}
+	if !bytes.Equal(first, keep) {
+		return "first-result-altered-by-second-decode", fmt.Sprintf("dict: %s\nbefore % x\nafter  % x", s.Dict.String(), head(keep), head(first))
+	}
+	return "", ""
 }
 
 func head(b []byte) []byte {
@@ -430,9 +461,14 @@ func lenient(e *harness.Env, desc string, s *core.Stream, want []byte, outcome s
 	var got []byte
 	var err error
 	e.Begin(desc)
+	enc := append([]byte(nil), s.Data...)
 	sig, det := harness.Guard(func() { got, err = s.Decode() })
 	if sig != "" {
-		e.Fail(desc, sig, det, map[string][]byte{"stream.bin": s.Data})
+		e.Fail(desc, sig, det, map[string][]byte{"stream.bin": enc})
+		return
+	}
+	if !bytes.Equal(s.Data, enc) {
+		e.Fail(desc, "decode-alters-encoded-data", fmt.Sprintf("dict: %s\nencoded before % x\nencoded after  % x", s.Dict.String(), head(enc), head(s.Data)), map[string][]byte{"stream.bin": enc})
 		return
 	}
 	if err != nil {
